@@ -90,6 +90,7 @@ func (h *half) read(p []byte) (int, error) {
 	defer h.mu.Unlock()
 	h.reads++
 	h.expired = false
+	announced := false
 	for {
 		if h.rclosed {
 			return 0, net.ErrClosed
@@ -124,8 +125,14 @@ func (h *half) read(p []byte) (int, error) {
 			})
 		}
 		h.parked++
-		h.gen++
-		h.cond.Broadcast()
+		if !announced {
+			// tell waiters (WaitPeerIdle, the peer's stall check) once that this end is now
+			// parked; broadcasting on every wake-up would make two parked ends (they share the
+			// condition variable) wake each other for ever
+			announced = true
+			h.gen++
+			h.cond.Broadcast()
+		}
 		h.cond.Wait()
 		h.parked--
 		if t != nil {
